@@ -10,7 +10,9 @@ SPEC = dict(
                 "character; renumbering by rank is a monotone bijection onto [0, numGlyphs) and the identity under RETAIN_GIDS; "
                 "every kept glyph has the same advance and side bearing under its new id INCLUDING the numberOfHMetrics trimming "
                 "loop and zero-filled gaps; the subset's character list is exactly {(c, map g)} for requested c or g; a kept "
-                "glyph's record is the original with component ids renamed; subsetting to everything is the identity renumbering. "
+                "glyph's record is the original with component ids renamed; the retained set is the least component-closed set containing the "
+                "roots (no junk); subsetting to everything is the identity renumbering; subsetting the subset again with the same request "
+                "keeps every glyph with the identity renumbering (rank mode, no COLR/UVS, no truncation). "
                 "The retained set is component-closed under the explicit hypotheses the code needs (component ids inside the font, "
                 "nesting at most 65 levels, operation budget >= number of glyphs); without them the statement is FALSE of the faithful "
                 "model (closure stops at nesting depth 64 / an operation budget): proved refuted with witnesses that reproduce on the "
@@ -23,7 +25,7 @@ SPEC = dict(
                 "harness's abstraction of a font (hashes stand for glyph contents). Not modelled: serializer byte packing "
                 "(loca/glyf offsets, cmap4/12/14 encoders), gvar/HVAR/COLR/layout subsetters, hint stripping - covered by the "
                 "implementation-only oracle, which currently reports several genuine defects there (see notes/C17.md). "
-                "subset_idempotent is tested (oracle), not proved."),
+                "subset_idempotent is proved for rank renumbering without COLR/UVS closures; RETAIN_GIDS / colour variants are tested only."),
     technique="Coq proof (induction over sorted lists / the trimming loop / the closure recursion) over hand-written Gallina model + vm_compute correspondence with klippa + skrifa-based implementation oracle",
     modelled=["klippa/src/lib.rs: Plan::new (unicode_to_new_gid_list rewrite), populate_unicodes_to_retain (both branches), populate_gids_to_retain (.notdef, cmap14 UVS closure, COLR closure as oracle, glyf_closure_glyphs with operation budget and MAX_NESTING_LEVEL), remove_invalid_gids, create_old_gid_to_new_gid_map (rank / RETAIN_GIDS)",
               "klippa/src/hmtx.rs: subset (bounds check, long/short placement, zero fill), compute_new_num_h_metrics, get_new_gid_advance; read-fonts hmtx advance/side_bearing lookups",
@@ -31,7 +33,7 @@ SPEC = dict(
               "klippa/src/cmap.rs: at the level of the (char, new gid) list and the encoding-record prerequisites"],
     not_covered=["serialize.rs packing, loca offset arithmetic, cmap4/cmap12/cmap14 byte encoders: implementation-only oracle (finds C17:cmap4-id-range-offset-shared-base, C17:glyf-short-loca-u16-offset-overflow, C17:glyf-long-loca-unpadded-glyph-data, C17:cmap12-empty-subtable-invalid-group)",
                  "gvar / HVAR / COLR / CPAL / layout / name / OS2 / post subsetters and hint stripping: implementation-only oracle (finds C17:hvar-dropped, C17:colr-dropped)",
-                 "draw_commutes (abstract recursive draw) and subset_idempotent are not proved; outline/metric equality at sizes x locations and subset-of-subset stability are tested on the implementation",
+                 "draw_commutes (abstract recursive draw) is not proved; outline/metric equality at sizes x locations and subset-of-subset stability of the real output are tested on the implementation",
                  "model correspondence is restricted to requests whose kept glyph data is < 64 KiB (above that the loca writer defects fire) and to fonts with <= 1500 glyphs / <= 4000 cmap entries"],
     assumptions=["cmap of the font is a function (NoDup of characters) for c17_cmap_exact / c17_closure_contains_requested / c17_subset_all_identity",
                  "num_output_glyphs <= 65535 for c17_hmtx_preserved (always true: glyph ids are 16-bit in glyf fonts)",
